@@ -526,6 +526,37 @@ class Gen:
                             (0, n_, len(edits), "delall"))
                         edits.append({"op": "del", "b": bid, "i": 0,
                                       "n": n_, "proxy": False})
+        if self.knobs.get("entry_kept_p") and case["funcs"] and \
+                rng.random() < self.knobs["entry_kept_p"]:
+            # an entry block that something branches to or calls, followed
+            # by data and then by more code of its function; the entry and
+            # the data are deleted as whole blocks: the entry is kept while
+            # the data is behind it and hands its role on when that goes
+            seqb = [b for s_ in case["secs"] for iv in s_["ivs"]
+                    for b in iv["blocks"]]
+            tgts = {it.get("t") for b in seqb if b["code"]
+                    for it in b["items"][-1:]}
+            cands = []
+            for f in case["funcs"]:
+                for e in f["entries"]:
+                    k = next(i for i, b in enumerate(seqb) if b["id"] == e)
+                    if k + 2 < len(seqb) and seqb[k]["items"] and \
+                            not seqb[k + 1]["code"] and \
+                            seqb[k + 1]["items"] and seqb[k + 2]["code"] \
+                            and seqb[k + 2]["id"] in f["blocks"] and \
+                            not per_block.get(e) and \
+                            not per_block.get(seqb[k + 1]["id"]):
+                        cands.append((bool(set(seqb[k]["labels"]) & tgts),
+                                      k))
+            if cands:
+                best = [c for c in cands if c[0]] or cands
+                k = rng.choice(best)[1]
+                for b in seqb[k:k + 2]:
+                    n_ = len(b["items"])
+                    per_block.setdefault(b["id"], []).append(
+                        (0, n_, len(edits), "delall"))
+                    edits.append({"op": "del", "b": b["id"], "i": 0,
+                                  "n": n_, "proxy": False})
         for _ in range(n * 3):
             if len(edits) >= n:
                 break
